@@ -62,8 +62,10 @@ type srcOpt struct {
 // layerCase is one executable case: a chart shape (1..3 levels) and at most
 // one option per source; nil = source absent.
 type layerCase struct {
-	Shape int            `json:"shape"`
-	Srcs  [nSrc]*srcOpt  `json:"srcs"`
+	Shape int           `json:"shape"`
+	Srcs  [nSrc]*srcOpt `json:"srcs"`
+	// AllEntries: also run chartutil.CoalesceValues and chartutil.MergeValues (no-mutation oracle), not only ToRenderValues
+	AllEntries bool `json:"all_entries"`
 }
 
 func (lc layerCase) String() string {
@@ -116,41 +118,51 @@ func subMaps(leaves []any) []any {
 
 // baseFamily lists the abstract trees a source may hold, simplest first.
 //
-// quick: key a carries every shape of depth <= 2 (4 leaves, 16 sub-maps over
-// {absent,S1,L,N}^2), key b is absent; plus 5 trees in which b is a bystander
-// or competes. thorough adds S2 below, depth-3 chains, and b-side shapes.
-func baseFamily(thorough bool) []mp {
-	var shapes []any
-	shapes = append(shapes, lS1, lS2, lL, lN)
-	l2 := []any{lS1, lL, lN}
-	if thorough {
-		l2 = []any{lS1, lS2, lL, lN}
-	}
-	shapes = append(shapes, subMaps(l2)...)
+//	core (12 trees):    the kinds of override one level deep, used for tuples of 4 sources (thorough)
+//	quick (20 trees):   key a carries the 4 leaves, every sub-map over {absent,S1,null}^2 and two sub-maps with a list;
+//	                    key b absent; plus 5 trees in which b is a bystander or competes
+//	thorough (44 trees): sub-maps over {absent,S1,S2,L,null}^2, depth-3 chains, b-side shapes
+func baseFamily(level string) []mp {
 	var out []mp
-	for _, s := range shapes {
-		out = append(out, mp{"a": s})
-	}
-	out = append(out,
-		mp{"b": lS1},
-		mp{"a": lS1, "b": lS1},
-		mp{"a": lN, "b": lS1},
-		mp{"a": mp{"a": lS1}, "b": lS1},
-		mp{"a": mp{"a": lN}, "b": lL},
-	)
-	if thorough {
+	switch level {
+	case "core":
+		out = []mp{
+			{"a": lS1}, {"a": lL}, {"a": lN}, {"a": mp{}}, {"a": mp{"a": lS1}}, {"a": mp{"a": lN}}, {"a": mp{"a": lL}}, {"a": mp{"b": lS1}},
+			{"a": mp{"a": lS1, "b": lS1}}, {"b": lS1}, {"a": lS1, "b": lS1}, {"a": lN, "b": lS1},
+		}
+	default:
+		var shapes []any
+		shapes = append(shapes, lS1, lS2, lL, lN)
+		if level == "thorough" {
+			shapes = append(shapes, subMaps([]any{lS1, lS2, lL, lN})...)
+		} else {
+			shapes = append(shapes, subMaps([]any{lS1, lN})...)
+			shapes = append(shapes, mp{"a": lL}, mp{"a": lL, "b": lS1})
+		}
+		for _, s := range shapes {
+			out = append(out, mp{"a": s})
+		}
 		out = append(out,
-			mp{"a": mp{"a": mp{"a": lS1}}},
-			mp{"a": mp{"a": mp{"a": lN}}},
-			mp{"a": mp{"a": mp{"b": lS1}}},
-			mp{"a": mp{"a": mp{"a": lS1, "b": lL}}},
-			mp{"a": mp{"a": mp{}}},
-			mp{"a": mp{"a": mp{"a": lL}, "b": lS1}},
-			mp{"b": lN},
-			mp{"b": mp{"a": lS1}},
-			mp{"a": lL, "b": lN},
-			mp{"a": mp{"b": lS1}, "b": mp{"a": lS1}},
+			mp{"b": lS1},
+			mp{"a": lS1, "b": lS1},
+			mp{"a": lN, "b": lS1},
+			mp{"a": mp{"a": lS1}, "b": lS1},
+			mp{"a": mp{"a": lN}, "b": lL},
 		)
+		if level == "thorough" {
+			out = append(out,
+				mp{"a": mp{"a": mp{"a": lS1}}},
+				mp{"a": mp{"a": mp{"a": lN}}},
+				mp{"a": mp{"a": mp{"b": lS1}}},
+				mp{"a": mp{"a": mp{"a": lS1, "b": lL}}},
+				mp{"a": mp{"a": mp{}}},
+				mp{"a": mp{"a": mp{"a": lL}, "b": lS1}},
+				mp{"b": lN},
+				mp{"b": mp{"a": lS1}},
+				mp{"a": lL, "b": lN},
+				mp{"a": mp{"b": lS1}, "b": mp{"a": lS1}},
+			)
+		}
 	}
 	sort.SliceStable(out, func(i, j int) bool {
 		si, sj := treeSize(out[i]), treeSize(out[j])
@@ -212,8 +224,8 @@ func expressible(src, variant int, t mp) bool {
 	return false
 }
 
-func families(thorough bool) [nSrc][]srcOpt {
-	base := baseFamily(thorough)
+func families(level string) [nSrc][]srcOpt {
+	base := baseFamily(level)
 	var f [nSrc][]srcOpt
 	for s := 0; s < nSrc; s++ {
 		nv := 1
@@ -586,6 +598,9 @@ func asMap(v any) (mp, bool) {
 func probe(v any) {
 	switch x := v.(type) {
 	case mp:
+		if x == nil {
+			return
+		}
 		for k, e := range x {
 			switch e.(type) {
 			case mp, []any:
@@ -662,21 +677,16 @@ func execLayer(w *work, lc layerCase) ([]lfail, layerObs) {
 	for i, c := range charts {
 		snaps[i] = deepCopy(c.Values)
 	}
-	unchanged := func(stage string) {
+	intact := func() bool {
 		if !reflect.DeepEqual(user, userSnap) {
-			fails = append(fails, lfail{"nomut/" + stage + "/caller-values", fmt.Sprintf("%s: the value map handed in was %s and is now %s; %s", stage, show(userSnap), show(user), lc)})
-			user = deepCopy(userSnap).(mp)
+			return false
 		}
 		for i, c := range charts {
 			if !reflect.DeepEqual(c.Values, snaps[i]) {
-				fails = append(fails, lfail{"nomut/" + stage + "/chart-values", fmt.Sprintf("%s: stored values of chart %q were %s and are now %s; %s", stage, c.Name(), show(snaps[i]), show(c.Values), lc)})
-				if snaps[i].(mp) == nil {
-					c.Values = nil
-				} else {
-					c.Values = deepCopy(snaps[i]).(mp)
-				}
+				return false
 			}
 		}
+		return true
 	}
 	var top chartutil.Values
 	if p := guard(func() {
@@ -687,7 +697,6 @@ func execLayer(w *work, lc layerCase) ([]lfail, layerObs) {
 	if err != nil {
 		return append(fails, lfail{"render/unexpected-error", fmt.Sprintf("ToRenderValues fails (%v) for %s", firstLine(err.Error()), lc)}), obs
 	}
-	unchanged("ToRenderValues")
 	cur, ok := asMap(top["Values"])
 	if !ok {
 		return append(fails, lfail{"render/no-values", fmt.Sprintf("ToRenderValues returns Values of type %T for %s", top["Values"], lc)}), obs
@@ -731,23 +740,69 @@ func execLayer(w *work, lc layerCase) ([]lfail, layerObs) {
 		fails = append(fails, lfail{"render/" + scopeTags[s] + "/" + gk + "-for-" + wk,
 			fmt.Sprintf("chart scope %s sees %s, precedence order gives %s (first difference at %q: %s instead of %s); %s", chartNames[s], gs, r.grouped, p, gk, wk, lc)})
 	}
-	// the two other coalescing entry points, then aliasing probes
+	// the two other coalescing entry points, then overwrite every node of every result
 	var cv, mv chartutil.Values
-	if p := guard(func() { cv, err = chartutil.CoalesceValues(charts[0], user) }); p != nil || err != nil {
-		fails = append(fails, lfail{"coalesce/unexpected-error", fmt.Sprintf("CoalesceValues fails (%v %v) for %s", p, err, lc)})
+	if lc.AllEntries {
+		if p := guard(func() { cv, err = chartutil.CoalesceValues(charts[0], user) }); p != nil || err != nil {
+			fails = append(fails, lfail{"coalesce/unexpected-error", fmt.Sprintf("CoalesceValues fails (%v %v) for %s", p, err, lc)})
+		}
+		if p := guard(func() { mv, err = chartutil.MergeValues(charts[0], user) }); p != nil || err != nil {
+			fails = append(fails, lfail{"mergevalues/unexpected-error", fmt.Sprintf("chartutil.MergeValues fails (%v %v) for %s", p, err, lc)})
+		}
 	}
-	unchanged("CoalesceValues")
-	if p := guard(func() { mv, err = chartutil.MergeValues(charts[0], user) }); p != nil || err != nil {
-		fails = append(fails, lfail{"mergevalues/unexpected-error", fmt.Sprintf("chartutil.MergeValues fails (%v %v) for %s", p, err, lc)})
+	probe(top["Values"])
+	probe(cv)
+	probe(mv)
+	if !intact() {
+		fails = append(fails, attributeMutation(lc, userSnap.(mp))...)
 	}
-	unchanged("MergeValues")
+	return fails, obs
+}
+
+// attributeMutation re-runs the coalescing entry points one at a time on fresh
+// copies and says after which step an input was found modified.
+func attributeMutation(lc layerCase, userSnap mp) []lfail {
+	var fails []lfail
+	charts := buildCharts(lc)
+	user := deepCopy(userSnap).(mp)
+	snaps := make([]any, len(charts))
+	for i, c := range charts {
+		snaps[i] = deepCopy(c.Values)
+	}
+	unchanged := func(stage string) {
+		if !reflect.DeepEqual(user, userSnap) {
+			fails = append(fails, lfail{"nomut/" + stage + "/caller-values", fmt.Sprintf("%s: the value map handed in was %s and is now %s; %s", stage, show(userSnap), show(user), lc)})
+			user = deepCopy(userSnap).(mp)
+		}
+		for i, c := range charts {
+			if !reflect.DeepEqual(c.Values, snaps[i]) {
+				fails = append(fails, lfail{"nomut/" + stage + "/chart-values", fmt.Sprintf("%s: stored values of chart %q were %s and are now %s; %s", stage, c.Name(), show(snaps[i]), show(c.Values), lc)})
+				if snaps[i].(mp) == nil {
+					c.Values = nil
+				} else {
+					c.Values = deepCopy(snaps[i]).(mp)
+				}
+			}
+		}
+	}
+	var top, cv, mv chartutil.Values
+	guard(func() {
+		top, _ = chartutil.ToRenderValues(charts[0], user, chartutil.ReleaseOptions{Name: "r", Namespace: "ns", Revision: 1, IsInstall: true}, nil)
+	})
+	unchanged("ToRenderValues")
+	if lc.AllEntries {
+		guard(func() { cv, _ = chartutil.CoalesceValues(charts[0], user) })
+		unchanged("CoalesceValues")
+		guard(func() { mv, _ = chartutil.MergeValues(charts[0], user) })
+		unchanged("MergeValues")
+	}
 	probe(top["Values"])
 	unchanged("write-to-ToRenderValues-result")
 	probe(cv)
 	unchanged("write-to-CoalesceValues-result")
 	probe(mv)
 	unchanged("write-to-MergeValues-result")
-	return fails, obs
+	return fails
 }
 
 func firstLine(s string) string {
@@ -854,6 +909,10 @@ func collectOwners(v any, out map[string]bool) {
 // chart levels, fewer sources, lower-numbered user sources, simpler trees.
 func minimiseLayer(w *work, lc layerCase, fam [nSrc][]srcOpt, stillFails func(layerCase) bool) layerCase {
 	cur := lc
+	cur.AllEntries = true
+	if !stillFails(cur) {
+		cur = lc
+	}
 	try := func(x layerCase) bool {
 		if x.Srcs[srcPar] != nil && x.Shape == 1 {
 			return false
